@@ -54,6 +54,30 @@ theorem getClosingPairToken_ok {c : Ctx} (hv : Valid c) (hb : PairsBounded c) : 
       (by have := hv.lo; omega) h2
     exact ⟨some t, by simp [hge, hget]⟩
 
+theorem getPrintToken_ok {c : Ctx} (hv : Valid c) (atEnd : Bool) : ∃ t, c.getPrintToken atEnd = .ok t := by
+  unfold Ctx.getPrintToken
+  by_cases h : c.size = 0
+  · exact ⟨none, by simp [h]⟩
+  · have hsz : c.tp.start < c.tp.stop := by
+      have := hv.mid
+      unfold Ctx.size at h
+      omega
+    simp only [h, if_false]
+    cases atEnd with
+    | true =>
+      have hir : Ctx.indexInRange { c with tp := ⟨c.tp.stop, c.tp.stop⟩ } 0 = false := by
+        simp [Ctx.indexInRange]
+      have hpos : (0 : Int) < c.tp.stop := by have := hv.lo; omega
+      obtain ⟨t, _, hget, _⟩ := getToken_ok_int c hv.idx (c.tp.stop + -1)
+        (by omega) (by have := hv.hi; omega)
+      exact ⟨some t, by simp [hir, hpos, hget]⟩
+    | false =>
+      have hir : Ctx.indexInRange { c with tp := ⟨c.tp.start, c.tp.stop⟩ } 0 = true := by
+        simp [Ctx.indexInRange]; omega
+      obtain ⟨t, _, hget, _⟩ := getToken_ok_int c hv.idx c.tp.start
+        (by have := hv.lo; omega) (by have := hv.hi; omega)
+      exact ⟨some t, by simp [hir, hget]⟩
+
 theorem getNextOperatorLoop_ok {c : Ctx} (hg : Good c) (m : Bitfield) :
     ∀ (fuel : Nat) (pos : Int), c.tp.start ≤ pos → (c.tp.stop - pos).toNat < fuel →
       ∃ r, getNextOperatorLoop c m fuel pos c.pairs = .ok (r, c.pairs) ∧ (r = -1 ∨ (0 ≤ r ∧ r < c.size)) := by
@@ -171,6 +195,9 @@ theorem step_good {c : Ctx} (hg : Good c) (o : NavOp) :
   | closing => exact Or.inr ⟨c, _, rfl, hg⟩
   | closingTok =>
     obtain ⟨t, ht⟩ := getClosingPairToken_ok hg.valid hg.bounded
+    exact Or.inr ⟨c, if t.isSome then 1 else 0, by simp [Ctx.step, ht], hg⟩
+  | printTok e =>
+    obtain ⟨t, ht⟩ := getPrintToken_ok hg.valid e
     exact Or.inr ⟨c, if t.isSome then 1 else 0, by simp [Ctx.step, ht], hg⟩
   | next m =>
     obtain ⟨r, hr, _⟩ := getNextOperator_ok hg m (c.size.toNat + 1) (by omega)
